@@ -645,4 +645,33 @@ theorem coreOK7 {e : D} {l7 : List (S7 D)} {m d} (h : C7 e l7 m d) : CoreOK e (I
     | later s hs => cases hs <;> simp [stA, stB, stC, stD]
 
 
+
+/-! ### the data check answers "has data" in every reachable state -/
+
+theorem hasDataAnswer_setNew_empty {t : US D} (h : hasDataAnswer t = true) (hn : t.new = none) :
+    hasDataAnswer (setNew (some []) t) = true := by
+  cases t; simp only at hn; subst hn
+  simpa [hasDataAnswer, setNew] using h
+
+theorem hasDataAnswer_inv {l8 : List (S8 D)} {m d} (h : C8 l8 m d) {s : US D} (hs : Inv l8 m d s) :
+    hasDataAnswer s = true := by
+  have hne := h.nonempty
+  cases hs with
+  | A j7 pt => simp [hasDataAnswer, stA, nonEmptyDir, hne]
+  | B x hx => simp [hasDataAnswer, stB, nonEmptyDir, hne]
+  | C y x => simp [hasDataAnswer, stC, fin]
+  | D => simp [hasDataAnswer, stD, fin]
+
+theorem hasDataAnswer_inv7 {e : D} {l7 : List (S7 D)} {m d} (h : C7 e l7 m d) {s : US D} (hs : Inv7 l7 m d s) :
+    hasDataAnswer s = true := by
+  cases hs with
+  | P z => simp [hasDataAnswer, stP, nonEmptyDir, h.nonempty]
+  | later s hs => exact hasDataAnswer_inv (b8_C8 m d) hs
+
+theorem hasDataAnswer_lift {P : US D → Prop} (hP : ∀ s, P s → hasDataAnswer s = true) {s : US D} (hs : Lift P s) :
+    hasDataAnswer s = true := by
+  rcases hs with hp | ⟨t, hp, hn, rfl⟩
+  · exact hP s hp
+  · exact hasDataAnswer_setNew_empty (hP t hp) hn
+
 end RqModel.Upgrade
